@@ -88,7 +88,44 @@ def assume_distinct(I, xs):
 # ---------------------------------------------------------------------------------
 
 
-def build(I, kind: str, sh: dict, tag: str = "b"):
+class Ov:
+    """Inputs wrapper: named inputs listed in `ov` are replaced by the given values
+    (C14 builds b = a with exactly one site changed)."""
+
+    def __init__(self, I, ov):
+        self._I = I
+        self._ov = ov
+
+    def __getattr__(self, n):
+        return getattr(self._I, n)
+
+    def _c(self, name, mk):
+        return self._ov[name] if name in self._ov else mk()
+
+    def ibv(self, name, code):
+        return self._c(name, lambda: self._I.ibv(name, code))
+
+    def f32(self, name):
+        return self._c(name, lambda: self._I.f32(name))
+
+    def f64(self, name):
+        return self._c(name, lambda: self._I.f64(name))
+
+    def farray(self, name, shape, w=32):
+        return self._c(name, lambda: self._I.farray(name, shape, w))
+
+    def iarray(self, name, n, code):
+        return self._c(name, lambda: self._I.iarray(name, n, code))
+
+    def chars(self, name, length, kind="valid"):
+        return self._c(name, lambda: self._I.chars(name, length, kind))
+
+    label = chars
+
+
+def build(I, kind: str, sh: dict, tag: str = "b", ov=None):
+    if ov:
+        I = Ov(I, ov)
     return globals()["build_" + kind](I, sh, tag)
 
 
